@@ -1,0 +1,6 @@
+//go:build !verif
+
+package engine
+
+// verifTrace is a no-op unless built with -tags verif.
+func verifTrace(string, uint64, bool) {}
